@@ -166,7 +166,7 @@ theorem readItem_TO (cfg : Cfg) (hc : cfg.checkAfterRead = true) (classes : List
     apply (readData_TO cfg hc _ _ _ s k).bind
     intro bs s' k'
     exact (addAt_TO cfg _ o s' k').bind fun _ s'' k'' => ok_TO _ s'' k''
-  | .object o cls body, s, k => by
+  | .object m o cls body, s, k => by
     simp only [readItem]
     apply (readN_TO cfg hc 4 none s k).bind
     intro tb s1 k1
@@ -186,7 +186,7 @@ theorem readItem_TO (cfg : Cfg) (hc : cfg.checkAfterRead = true) (classes : List
     refine TO.ite (fun _ => err_TO _ _ _ _ _) (fun _ => ?_)
     apply (readItems_TO cfg hc classes body s4 k4).bind
     intro items s5 k5
-    simp only [tell_cut]
+    simp only [tell_cut, bracket_ite]
     refine TO.ite (fun _ => err_TO _ _ _ _ _) (fun _ => ?_)
     refine TO.ite (fun _ => err_TO _ _ _ _ _) (fun _ => ?_)
     exact (addAt_TO cfg _ o s5 k5).bind fun _ s6 k6 => ok_TO _ s6 k6
